@@ -31,10 +31,10 @@ def jsonLines (t : Tree) (vis : Nat → String → Bool) (ks : List JKey) (docke
     p ++ "=" ++ (match hit with
       | some k => (match idx dockeys k.key with | some j => s!"arg{j}" | none => "zero")
       | none => "zero"))
-  let nilPanic := mirrorPanic && ks.any (fun k => (k.exported || k.hasSet) && dockeys.contains k.key &&
-    (match targetOf t vis k.name with | some (_, _, under) => under | none => false))
+  -- f531104: UnmarshalJSON allocates, MarshalJSON tests, the embedded pointer structs on the way: no panic any more
+  let nilPanic := mirrorPanic && false
   [("keys", " ".intercalate sorted), ("marshal", ";".intercalate mline), ("um", ";".intercalate uline),
-   ("umnil", if nilPanic then "panic" else "ok")]
+   ("umnil", if nilPanic then "panic" else "ok"), ("mnil", "ok")]
 
 /-- `(json (getset b) (tagcase c) (typedoc …) (facts …) (dockeys k…) (tree M…))` -/
 def jsonCase (id : String) (payload : List Sexp) : List String :=
@@ -94,7 +94,6 @@ def jsonCase (id : String) (payload : List Sexp) : List String :=
       let reg :=
         if stdAmbig then "Out" else
         if Ctor.region t != "WF" || !wfOnce t || badTag || dupKeys || clash || clashC03 || exportedUnderscore || skippedExported then "Out"
-        else if (jsonLines t visM mk dockeys true).any (fun kv => kv.1 = "umnil" && kv.2 = "panic") then "F_jsonNilEmbed"
         else "WF"
       let aux := [("needjson", toString (needJSON getset tc sw promG promS fs))]
       let tgt := sk.map (fun k => ("target:" ++ k.key, match targetOf t visS k.name with | some (p, _, _) => p | none => "?"))
